@@ -361,3 +361,18 @@ func orPred(ps ...valPred) valPred {
 }
 
 var _ = token.ADD
+
+// hasComparison: fn contains a comparison "x op y" (mirrored forms accepted),
+// wherever its result is used.
+func hasComparison(fn *ssa.Function, ops string, xp, yp valPred) bool {
+	for _, b := range fn.Blocks {
+		for _, ins := range b.Instrs {
+			if bo, ok := ins.(*ssa.BinOp); ok {
+				if r, ok := relOf(bo, true); ok && matchRel(r, ops, xp, yp) {
+					return true
+				}
+			}
+		}
+	}
+	return false
+}
